@@ -217,7 +217,11 @@ class file_store(base_store):
 
         # Rename is atomic even over NFS.
         fsync_dir(fname)
-        os.rename(fname, path.join(self.jugdir, 'packs', 'jugpack'))
+        packfile = self._packfile()
+        os.rename(fname, packfile)
+        # The new pack must have reached the disk before update_pack() deletes
+        # the result files it replaces (otherwise a power loss can lose both).
+        fsync_dir(packfile)
         lock.release()
 
 
